@@ -85,6 +85,39 @@ def gen_sched(rng):
     return C.sx(["svc", gen_cfg(rng)] + variant() + threads + [["choices"] + choices])
 
 
+def gen_directed(rng):
+    """schedules aimed at the narrow windows: Run's whole chain inside Start's closure, a stale Start parked
+    between its isFinished load and its Swap, observers inside the finish sequence of the Run goroutine.
+    Choices are actor names (skipped when that actor is not enabled), with random perturbation."""
+    n = rng.choice([2, 2, 3, 4, 6])
+    threads = [["thread", ["start", 0]] + [rng.choice([["wait"], ["running"], ["close"], ["start", 0]])
+                                          for _ in range(rng.choice([1, 2, 3]))]]
+    for _ in range(n - 1):
+        threads.append(["thread"] + gen_prog(rng, rng.choice(["starter", "starter", "waiter", "closer", "any"])))
+    others = [f"t{i}" for i in range(1, n)]
+    chain = ["rg"] * 4 + ["sd"] * 4 + ["rg"] * 8 + ["eh"] * 4
+    kind = rng.choice(["inside-closure", "stale-start", "finish-window", "mix"])
+    ch = []
+    if kind == "inside-closure":
+        ch += [rng.choice(others) for _ in range(rng.choice([0, 1, 2]))]
+        ch += ["t0"] * rng.choice([4, 4, 5]) + rng.choice([[], ["p0"], [rng.choice(others)]])
+        ch += chain + ["t0"] * 4
+    elif kind == "stale-start":
+        ch += others[:rng.choice([1, len(others)])] + ["t0"] * 6 + rng.choice([[], ["p0"], ["t0"]]) + chain
+        ch += ["t0"] * 2 + [x for o in others for x in [o] * rng.choice([1, 2])] + ["t0"] * 2
+    elif kind == "finish-window":
+        ch += ["t0"] * 6 + rng.choice([[], ["p0"]]) + ["rg"] * 4 + ["sd"] * 4 + ["rg"] * rng.choice([2, 3, 4, 5])
+        ch += [rng.choice(others + ["t0"]) for _ in range(rng.choice([2, 4, 8]))] + ["rg"] * 6 + ["eh"] * 4
+    else:
+        ch += [rng.choice(["t0"] + others + ["rg", "sd", "eh", "p0"]) for _ in range(rng.choice([20, 60]))]
+    # perturb: drop or insert a few labels, then a random numeric tail
+    ch = [c for c in ch if rng.random() > 0.05]
+    for _ in range(rng.choice([0, 1, 3])):
+        ch.insert(rng.randrange(0, len(ch) + 1), rng.choice(["t0"] + others + ["rg", "sd", "eh"]))
+    ch += [rng.randrange(0, 12) for _ in range(rng.choice([0, 10, 30]))]
+    return C.sx(["svc", gen_cfg(rng)] + variant() + threads + [["choices"] + ch])
+
+
 def matrix():
     out = []
     for r in OUTS:
@@ -110,6 +143,7 @@ def gen(rng, tier, open_keys):
     for _ in range(rounds):
         out += matrix()
     out += [gen_sched(rng) for _ in range(nsched)]
+    out += [gen_directed(rng) for _ in range(nsched // 2)]
     out += [gen_free(rng) for _ in range(nfree)]
     return out
 
